@@ -5,6 +5,8 @@
 use generic_array::functional::FunctionalSequence;
 use generic_array::internals::{ArrayBuilder, ArrayConsumer, IntrusiveArrayBuilder};
 use generic_array::sequence::GenericSequence;
+#[allow(unused_imports)]
+use generic_array::functional::MappedGenericSequence;
 use generic_array::{ArrayLength, GenericArray};
 use harness::engine::{self, Acc, Args, Report};
 use harness::registry::{self, pk, Elem, Peek, Tracked, TrackedZst};
@@ -80,6 +82,26 @@ fn zip_run<A: Elem + Peek, B: Elem + Peek, N: ArrayLength>(form: u8, k: Option<u
             }))
         };
     }
+    macro_rules! iz {
+        ($r:expr, $l:expr) => {
+            drop($r.inverted_zip($l, |l, r| {
+                registry::tick("inverted_zip closure");
+                let v = mix2(pk(&l), pk(&r));
+                drop((l, r));
+                Tracked::mk(v)
+            }))
+        };
+    }
+    macro_rules! iz2 {
+        ($r:expr, $l:expr) => {
+            drop($r.inverted_zip2($l, |l, r| {
+                registry::tick("inverted_zip2 closure");
+                let v = mix2(pk(&l), pk(&r));
+                drop((l, r));
+                Tracked::mk(v)
+            }))
+        };
+    }
     match form {
         0 => z!(a, b),
         1 => z!(a, &b),
@@ -90,7 +112,16 @@ fn zip_run<A: Elem + Peek, B: Elem + Peek, N: ArrayLength>(form: u8, k: Option<u
         6 => z!(&mut a, b),
         7 => z!(&mut a, &b),
         8 => z!(&mut a, &mut b),
-        _ => z!(Box::new(a), Box::new(b)),
+        9 => z!(Box::new(a), Box::new(b)),
+        // direct calls of the (doc-hidden, public) right-hand-side entry points of zip
+        10 => iz!(b, a),
+        11 => iz!(&b, a),
+        12 => iz!(&mut b, a),
+        13 => iz!(Box::new(b), a),
+        14 => iz2!(b, &a),
+        15 => iz2!(b, &mut a),
+        16 => iz2!(&b, &a),
+        _ => iz2!(Box::new(b), Box::new(a)),
     }
 }
 
@@ -425,7 +456,7 @@ fn instances(thorough: bool) -> Vec<Case> {
             }
         }
         if ziplens.contains(&n) {
-            for form in 0..10u8 {
+            for form in 0..18u8 {
                 for (lk, rk) in [(K3::Tracked, K3::Tracked), (K3::Tracked, K3::U32), (K3::U32, K3::Tracked), (K3::Tracked, K3::Zst), (K3::Zst, K3::Tracked), (K3::U32, K3::U32)] {
                     out.push(Case { op: Op::Zip(form, lk, rk), n, zst: false, k: None });
                 }
@@ -496,7 +527,7 @@ pub fn main() {
             prop: PROP,
             level: "fault_enumeration",
             rule: "operation instance = (operation and receiver/argument form, N, element kind); for each instance a clean run counts the K invocations of caller code (closure, Clone::clone, Default::default, source next()), then the instance is re-run once per crash point k in 0..K with a panic injected at exactly that invocation (every k for K <= 80, else first/last/middle + a seeded spread). \
-                   Operations: generate x4 forms, map x4, zip x10 forms x 7 element-kind pairs (drop-tracked / plain / zero-sized, selecting the needs_drop branches), fold x4, iterator fold/rfold/map-collect/Clone from every (front, back) for N<=8, Clone for GenericArray and Box<GenericArray>, Default, default_boxed, collect x4 targets x 3 produced counts x 3 hints from a scripted source that panics in next(), and the internals builders/consumer abandoned at every position. \
+                   Operations: generate x4 forms, map x4, zip x10 forms plus 8 direct inverted_zip / inverted_zip2 call forms x 6 element-kind pairs (drop-tracked / plain / zero-sized, selecting the needs_drop branches), fold x4, iterator fold/rfold/map-collect/Clone from every (front, back) for N<=8, Clone for GenericArray and Box<GenericArray>, Default, default_boxed, collect x4 targets x 3 produced counts x 3 hints from a scripted source that panics in next(), and the internals builders/consumer abandoned at every position. \
                    Oracle: the panic propagates with the injected payload, and once every local is gone each element ever created (inputs, partial outputs, values handed to the closure, clones) has been dropped exactly once, none as garbage. \
                    non-trivial = the injected panic fired with 0 < k < K-1 (a built prefix and an unconsumed suffix both exist); distinct = distinct (instance, k)",
             exhaustive: false,
